@@ -325,6 +325,14 @@ func (a *Act) lookupLocal(name string, at *ssa.BasicBlock, atIdx int, phiOv map[
 			return v, true
 		}
 	}
+	// a value re-bound by an in-place library call (sort.Stable / sort.Strings) is seen re-bound
+	// from the call on
+	for i := len(a.rebinds) - 1; i >= 0; i-- {
+		rb := a.rebinds[i]
+		if rb.root == best.v && (rb.blk == at && rb.idx < atIdx || rb.blk != at && rb.blk.Dominates(at)) {
+			return rb.val, true
+		}
+	}
 	v, ok := a.vals[best.v]
 	if !ok {
 		if c, isC := best.v.(*ssa.Const); isC {
